@@ -59,6 +59,10 @@ CLAIMS = {
     'C15': ('abstract interpretation of handleScriptHook for matching / other / symbolic script names x active x '
             'excluding: contributes the exit sequence as prefix exactly when required, closes the episode, otherwise no effect',
             'ordering of script hook versus print-done event is OctoPrint behaviour'),
+    'C07': ('every synthesised command found on any abstract path (exit, retraction, firmware retract) and the merged '
+            'deferred command: skeleton shape, distinct letters, and a per-word proof that the formatter cannot produce '
+            'exponent notation (fixed-point spec, integer, or helper whose every return is guarded by a test for an exponent marker)',
+            'finiteness of the values is not decided'),
     'C09': ('every abstract path of every handler: result shape None / IGNORE / non-empty list of non-empty commands; '
             'every partial operation (division, sqrt, index, None arithmetic, raise) forks an exceptional path that '
             'must be infeasible under the sign/order facts of the path',
